@@ -126,6 +126,10 @@ func (r *Runner) Exec(line string) error {
 			return nil
 		}
 		r.emit(op, "accept", CanonEvents(evs), true)
+		// the application hash (Merkle root over every store) after Commit: compared between
+		// re-executions of the same history (C10); the model does not produce it
+		fmt.Fprintf(r.Out, "A apphash=%X height=%d\n", s.App.LastCommitID().Hash, s.Height)
+		r.Out.Flush()
 	case "tx":
 		var msg sdk.Msg
 		var berr error
